@@ -25,6 +25,9 @@ type crashScope struct {
 	reach   map[*ssa.Function]bool
 	funcs   []*ssa.Function
 	entries []*ssa.Function
+	// buildFuncs: functions reachable only from the construction of a router (not from traffic): the
+	// clauses that need no knowledge of the document's validity are applied to them too
+	buildFuncs []*ssa.Function
 	// resolvedWrappers: functions analysed with the axiom "a reference wrapper's Value is non-nil"
 	// although the rest of the scope does not assume it (C20: the value-validation subtree)
 	resolvedWrappers map[*ssa.Function]bool
@@ -79,6 +82,24 @@ func c10(r *core.Report) {
 	p := r.Prog
 	p.BuildSSA()
 	cs := newCrashScope(p, "C10", trafficEntries(p, r.Tier == "thorough"))
+	// "building a router" is part of the property. The constant-index and nil clauses need facts
+	// about the constructors' own data structures that are not modelled (permutations of server
+	// variables, the pattern tree under construction); the clauses that need none are applied.
+	{
+		build := p.Reachable([]*ssa.Function{p.SSAFuncOf("routers/gorillamux", "NewRouter"), p.SSAFuncOf("routers/legacy", "NewRouter")})
+		for _, fn := range p.RepoSSAFuncs() {
+			if build[fn] && !cs.reach[fn] {
+				rel := ""
+				if fn.Package() != nil {
+					rel = core.RelPkg(fn.Package().Pkg)
+				}
+				if strings.HasPrefix(rel, "routers") {
+					cs.buildFuncs = append(cs.buildFuncs, fn)
+				}
+			}
+		}
+		sort.Slice(cs.buildFuncs, func(i, j int) bool { return cs.buildFuncs[i].String() < cs.buildFuncs[j].String() })
+	}
 	if os.Getenv("KINLINT_EXPLORE") != "" {
 		exploreCrashConstructs(p, cs.reach)
 	}
@@ -500,16 +521,21 @@ func strConst(info *types.Info, e ast.Expr) (string, bool) {
 
 func crashIndex(r *core.Report, cs *crashScope, floor int) {
 	p := r.Prog
-	r.RunRule(cs.id+".idx", "every index or slice expression with a constant index k (x[k], x[k:]) on a slice or string in reachable code is guarded by a length fact implying len(x) > k (resp. >= k) on the same access path: an `if`/`switch`/loop condition or short-circuit operand on len(x) or x != \"\", a counter kept in lock-step with appends, or a library fact (strconv.Format* is non-empty; strings.Split with a non-empty separator yields at least one element; FindAllStringSubmatch of a constant pattern yields 1+groups entries); a variable captured by a closure keeps the facts that hold where the closure is created when nothing assigns it afterwards", floor, func() {
+	r.RunRule(cs.id+".idx", "every index or slice expression with a constant index k (x[k], x[k:]) on a slice or string in reachable code is guarded by a length fact implying len(x) > k (resp. >= k) on the same access path: an `if`/`switch`/loop condition or short-circuit operand on len(x) or x != \"\", a counter kept in lock-step with appends, or a library fact (strconv.Format* is non-empty; strings.Split with a non-empty separator yields at least one element; FindAllStringSubmatch of a constant pattern yields 1+groups entries); a variable captured by a closure keeps the facts that hold where the closure is created when nothing assigns it afterwards; a position returned by strings.Index* is tested before it is used as an index or bound (this clause also covers the router constructors)", floor, func() {
 		na := 0
 		perFn := map[string]int{}
 		done := map[ast.Node]bool{}
-		for _, fn := range cs.funcs {
+		isBuild := map[*ssa.Function]bool{}
+		for _, fn := range cs.buildFuncs {
+			isBuild[fn] = true
+		}
+		for _, fn := range append(append([]*ssa.Function{}, cs.funcs...), cs.buildFuncs...) {
 			syn, fd, info := declOfSSA(p, fn)
 			if syn == nil || fd == nil || done[syn] {
 				continue
 			}
 			done[syn] = true
+			onlySearched := isBuild[fn]
 			var body ast.Node
 			switch x := syn.(type) {
 			case *ast.FuncDecl:
@@ -524,6 +550,68 @@ func crashIndex(r *core.Report, cs *crashScope, floor int) {
 			ast.Inspect(body, func(n ast.Node) bool {
 				if fl, ok := n.(*ast.FuncLit); ok && ast.Node(fl) != syn {
 					return false // separate SSA function
+				}
+				// a position found by strings.Index* is -1 when nothing was found: as an index or a slice
+				// bound it has to be tested first
+				{
+					var bounds []ast.Expr
+					switch x := n.(type) {
+					case *ast.SliceExpr:
+						bounds = append(bounds, x.Low, x.High)
+					case *ast.IndexExpr:
+						if _, isMap := info.TypeOf(x.X).Underlying().(*types.Map); !isMap {
+							bounds = append(bounds, x.Index)
+						}
+					}
+					for _, be := range bounds {
+						if be == nil {
+							continue
+						}
+						id, isID := ast.Unparen(be).(*ast.Ident)
+						if !isID {
+							continue
+						}
+						from := searchedPosition(info, ff, id)
+						if from == "" {
+							continue
+						}
+						na++
+						name := shortFn(fn)
+						perFn[name+"/searched"]++
+						key := fmt.Sprintf("idx:%s/searched#%d(%s)", name, perFn[name+"/searched"], id.Name)
+						found := false
+						for _, a := range core.Atoms(core.GuardsAt(info, fd.Body, n)) {
+							bx, ok := ast.Unparen(a.Expr).(*ast.BinaryExpr)
+							if !ok {
+								continue
+							}
+							op := bx.Op
+							if !a.Pos {
+								op = negOp(op)
+							}
+							l, rr := ast.Unparen(bx.X), ast.Unparen(bx.Y)
+							if rid, ok := rr.(*ast.Ident); ok && info.ObjectOf(rid) == info.ObjectOf(id) {
+								l, rr = rr, l
+								op = flipOp(op)
+							}
+							if lid, ok := l.(*ast.Ident); ok && info.ObjectOf(lid) == info.ObjectOf(id) {
+								if z, ok := intConst(info, rr); ok {
+									switch {
+									case op == token.GEQ && z >= 0, op == token.GTR && z >= -1, op == token.NEQ && z == -1:
+										found = true
+									}
+								}
+							}
+						}
+						if found {
+							r.OK(key, p.Pos(n.Pos()), "the position was tested before it is used as a bound")
+						} else {
+							r.Bad(key, p.Pos(n.Pos()), fmt.Sprintf("%s is the result of %s, which is -1 when the text does not contain what is searched for, and is used as an index or slice bound without a test: such text (a server URL like `http://a}b:{p`) makes this expression panic", id.Name, from))
+						}
+					}
+				}
+				if onlySearched {
+					return true // router construction: only the searched-position clause (see c10)
 				}
 				var base ast.Expr
 				need := 0
@@ -1969,6 +2057,27 @@ func verifyMuxMethods(p *core.Prog) string {
 	}
 	if paths == 0 || withMethods < paths {
 		return fmt.Sprintf("%d mux routes are registered with Path(...) but only %d get a Methods(...) matcher", paths, withMethods)
+	}
+	return ""
+}
+
+// searchedPosition: the identifier's only assignment is the result of a strings.Index* search.
+func searchedPosition(info *types.Info, ff *core.FuncFacts, id *ast.Ident) string {
+	as := ff.Assigns(info.ObjectOf(id))
+	if len(as) != 1 || as[0].Rhs == nil {
+		return ""
+	}
+	c, ok := ast.Unparen(as[0].Rhs).(*ast.CallExpr)
+	if !ok {
+		return ""
+	}
+	f := core.CalleeOf(info, c)
+	if f == nil || f.Pkg() == nil || (f.Pkg().Path() != "strings" && f.Pkg().Path() != "bytes") {
+		return ""
+	}
+	switch f.Name() {
+	case "Index", "IndexByte", "IndexAny", "IndexRune", "LastIndex", "LastIndexByte", "LastIndexAny", "IndexFunc":
+		return f.Pkg().Path() + "." + f.Name()
 	}
 	return ""
 }
